@@ -4,6 +4,8 @@ import os, re
 import vcheck as V
 LEVEL = "proof"
 PROP_FILE = "Properties_EBENC.v"
+# the encoder->decoder simulation (round trip for the classes proved so far) is checked together with the encoder theorems
+PROP_FILES = ["Properties_EBENC.v", "Properties_EBSIM.v"]
 RULE = ("cases = meshes of many shapes (tetrahedron, octahedron, single triangle, discs, grids with holes, cylinders, tori incl. "
         "multi-edge tori, genus 2/3 surfaces (tori with tube handles), fans, several components, dense random face sets over few "
         "vertices, pillow / duplicated / mirrored faces, bow-ties, edges shared by 3+ faces, vertex identifications, degenerate faces, "
